@@ -367,3 +367,22 @@ package commands
 //@     before call (*commands.CheckQuery).Execute args _, _, p : assert p != nil && sidC && p.StoreID == sid && tkBuilt && p.TupleKey == tk && ctsC && p.ContextualTuples == cts && cxC && p.Context == cx && consC && p.Consistency == cons
 //@     after call (*commands.CheckQuery).Execute returning r, e : executed = true ; execRes = r ; execErr = e
 //@     before call commands.trySendObject args _, o, cnt, mx, ch : assert executed && execErr == nil && execRes != nil && execRes.Allowed && o == deref(res).Object && cnt == objectsFound && mx == deref(maxResults) && ch == deref(resultsChan)
+
+// the candidate search of ListObjects runs with the request's store, contextual tuples, context and consistency
+//@ func (*ListObjectsQuery).evaluate$1$1(ctx) (err)
+//@   property C10 C04 C05
+//@   option nosafety
+//@   monitor wiring
+//@     ghost sidC = false
+//@     ghost sid string = ""
+//@     ghost cxC = false
+//@     ghost cx *structpb.Struct = nil
+//@     ghost consC = false
+//@     ghost cons int = 0
+//@     ghost ctsC = false
+//@     ghost cts *openfgav1.ContextualTupleKeys = nil
+//@     after call commands.listObjectsRequest.GetStoreId returning s : sidC = true ; sid = s
+//@     after call commands.listObjectsRequest.GetContextualTuples returning s : ctsC = true ; cts = s
+//@     after call commands.listObjectsRequest.GetContext returning s : cxC = true ; cx = s
+//@     after call commands.listObjectsRequest.GetConsistency returning s : consC = true ; cons = s
+//@     before call (*reverseexpand.ReverseExpandQuery).Execute args _, _, r, ch, md : assert r != nil && sidC && r.StoreID == sid && ctsC && r.ContextualTuples == cts.GetTupleKeys() && cxC && r.Context == cx && consC && r.Consistency == cons && r.ObjectType == deref(targetObjectType) && r.Relation == deref(targetRelation)
